@@ -12,11 +12,12 @@ from .rt import Ctl, create_machine, make_logic
 
 
 class Built:
-    def __init__(self, spec: Spec, services=None, delays=None, missing_actions=(), missing_guards=()) -> None:
+    def __init__(self, spec: Spec, services=None, delays=None) -> None:
         self.spec = spec
         self.ctl = Ctl()
-        acts = [a for a in spec.actions if a not in missing_actions]
-        grds = [g for g in spec.guards if g not in missing_guards]
+        missing = set(getattr(spec, "missing", ()) or ())
+        acts = [a for a in spec.actions if a not in missing]
+        grds = [g for g in spec.guards if g not in missing]
         self.logic = make_logic(self.ctl, acts, grds, services, delays)
         self.machine = create_machine(spec.config, logic=self.logic)
         self.defn = export_machine(self.machine, self.ctl)
@@ -75,7 +76,7 @@ def state_key(mi: int, s: dict) -> str:
 
 
 class Edge:
-    __slots__ = ("mi", "frm", "step", "to", "out", "prop")
+    __slots__ = ("mi", "frm", "step", "to", "out", "prop", "dirty")
 
     def __init__(self, obj: dict) -> None:
         self.mi = obj["mi"]
@@ -84,6 +85,7 @@ class Edge:
         self.to = canon_state(obj["to"])
         self.out = canon_out(obj["out"])
         self.prop = {k: sorted(v or []) for k, v in (obj.get("prop") or {}).items()}
+        self.dirty = bool(obj.get("dirty", False))
 
 
 def model_check(built: List[Built], workdir: str, *, engine="sync", gvals=("T", "F"), with_can=False,
